@@ -367,6 +367,19 @@ func init() {
 			}
 		}
 		explore.ParMap(rc, "c05/patterns", pi, func(i int, in c05PatItem, o simpleOut) { mergeSimple(rc, o, "pattern_strings") })
+		// ordered pairs over unusual spellings: what is registered already may make Handle refuse a pattern as a
+		// duplicate or as ambiguous, never for its syntax
+		var xitems []exoticItem
+		for _, p := range c17ExoticPool() {
+			xitems = append(xitems, exoticItem{Prop: "C05", First: p})
+		}
+		explore.ParMap(rc, "c17/exotic", xitems, func(i int, in exoticItem, o pairOut) {
+			rc.Add("exotic_pairs", o.Pairs)
+			rc.Add("transitions", o.Pairs)
+			for _, v := range o.Viols {
+				rc.Report(v)
+			}
+		})
 		// length classes around the 32767-byte segment limit, in bytes and in characters (3-byte characters: the
 		// limit is reached at 10923 of them), after literal text and after each kind of parameter; every such
 		// pattern goes through the same trial as the short ones (fresh and populated router, renamed twin, URL)
